@@ -97,7 +97,9 @@ AnchorsOnlyAtEnds(e) ==
 (***************************************************************************)
 (* Graphs                                                                  *)
 (***************************************************************************)
-OutEdges(g, s) == {g.edges[i] : i \in {j \in DOMAIN g.edges : g.edges[j][1] = s}}
+(* edges leaving s; recorded graphs carry an adjacency index adj (nodes are numbered 0..n-1) *)
+OutEdges(g, s) == IF "adj" \in DOMAIN g THEN ToSet(g.adj[s + 1])
+                  ELSE {g.edges[i] : i \in {j \in DOMAIN g.edges : g.edges[j][1] = s}}
 
 RECURSIVE RightLangF(_, _, _)
 RightLangF(g, s, fuel) ==
@@ -117,7 +119,7 @@ RightSym(g, s) == RightSymF(g, s, Len(g.nodes) + 1)
 
 RECURSIVE ReachF(_, _, _)
 ReachF(g, S, fuel) ==
-  LET N == S \cup {e[2] : e \in {g.edges[i] : i \in {j \in DOMAIN g.edges : g.edges[j][1] \in S}}}
+  LET N == S \cup UNION {{e[2] : e \in OutEdges(g, s)} : s \in S}
   IN IF N = S \/ fuel = 0 THEN S ELSE ReachF(g, N, fuel - 1)
 Reachable(g) == ReachF(g, {g.start}, Len(g.nodes) + 1)
 
@@ -132,7 +134,19 @@ DeterministicSym(g) ==
   \A i, j \in DOMAIN g.edges :
      (i # j /\ g.edges[i][1] = g.edges[j][1]) => g.edges[i][3] # g.edges[j][3]
 
+(* For a deterministic acyclic graph two states have the same right language (over symbols) iff  *)
+(* their unfolded signatures <<final, {<<symbol, signature of the target>>}>> are equal.          *)
+RECURSIVE SigF(_, _, _)
+SigF(g, s, fuel) ==
+  IF fuel = 0 THEN <<FALSE, {}>>
+  ELSE <<s \in ToSet(g.finals), {<<e[3], SigF(g, e[2], fuel - 1)>> : e \in OutEdges(g, s)}>>
 MinimalSym(g) ==
+  LET N == ToSet(g.nodes)
+      Sig == [s \in N |-> SigF(g, s, Len(g.nodes) + 1)]
+  IN /\ Reachable(g) = N
+     /\ \A s, t \in N : s # t => Sig[s] # Sig[t]
+(* the same, by explicit right languages (used to cross-check SigF in MC_Lang) *)
+MinimalSymByLang(g) ==
   LET N == ToSet(g.nodes)
       RL == [s \in N |-> RightSym(g, s)]
   IN /\ Reachable(g) = N
